@@ -90,6 +90,8 @@ def enc_case(c) -> str:
             parts.append("md:" + cps(e[1]))
         elif k in ("ha", "ua"):
             parts.append(k + ":" + enc_resp(e[1]))
+        elif k == "tick":
+            parts.append(f"k:{e[1]}")
         else:
             parts.append(k)
     ip, nf = env_bits(c)
@@ -122,8 +124,38 @@ def env_bits(c) -> tuple[int, int]:
 
 
 async def _drain():
-    for _ in range(6):
+    # "the event loop runs until no callback is ready": task start, a few awaits inside real middleware
+    # components (up to 3 slow ones in a chain), done-callbacks
+    for _ in range(24):
         await asyncio.sleep(0)
+
+
+_CERTS: list | None = None
+
+
+def cert_pool():
+    """three self-signed certificates (EC, Ed25519, RSA) as (der, sha256-hex fingerprint); generated once per process"""
+    global _CERTS
+    if _CERTS is None:
+        import datetime
+        import hashlib
+
+        from cryptography import x509
+        from cryptography.hazmat.primitives import hashes, serialization
+        from cryptography.hazmat.primitives.asymmetric import ec, ed25519, rsa
+        from cryptography.x509.oid import NameOID
+
+        out = []
+        for i, key in enumerate([ec.generate_private_key(ec.SECP256R1()), ed25519.Ed25519PrivateKey.generate(), rsa.generate_private_key(65537, 2048)]):
+            name = x509.Name([x509.NameAttribute(NameOID.COMMON_NAME, f"client{i}")])
+            now = datetime.datetime(2026, 1, 1)
+            cert = (x509.CertificateBuilder().subject_name(name).issuer_name(name).public_key(key.public_key()).serial_number(1000 + i)
+                    .not_valid_before(now).not_valid_after(now + datetime.timedelta(days=3650))
+                    .sign(key, None if isinstance(key, ed25519.Ed25519PrivateKey) else hashes.SHA256()))
+            der = cert.public_bytes(serialization.Encoding.DER)
+            out.append((der, "sha256:" + hashlib.sha256(der).hexdigest()))  # the format get_certificate_fingerprint uses
+        _CERTS = out
+    return _CERTS
 
 
 async def run_conn(loop: VLoop, c, middleware=None, upload_handler=None, handler=None, cert_der=None, peer=("192.0.2.7", 4711)):
@@ -134,6 +166,10 @@ async def run_conn(loop: VLoop, c, middleware=None, upload_handler=None, handler
     from nauyaca.server import protocol as sp
     from nauyaca.server.protocol import GeminiServerProtocol
 
+    if c.get("cert") is not None:
+        cert_der = cert_pool()[c["cert"]][0]
+    if c.get("peer"):
+        peer = (c["peer"], 4711)
     log = {"h": 0, "u": 0, "m": 0, "content": b"", "order": [], "mwargs": [], "hargs": [], "exc": []}
     gates: dict = {}
     hspec = c["handler"]
@@ -183,6 +219,7 @@ async def run_conn(loop: VLoop, c, middleware=None, upload_handler=None, handler
 
     loop.set_exception_handler(on_exc)
     lost = False
+    lens: list[int] = []
     p.connection_made(t)
     for e in c["evs"]:
         k = e[0]
@@ -230,6 +267,7 @@ async def run_conn(loop: VLoop, c, middleware=None, upload_handler=None, handler
         except Exception as ex:  # an exception escaping a protocol callback reaches the event loop
             log["exc"].append(f"{type(ex).__name__}: {ex}"[:120])
         await _drain()
+        lens.append(len(t.acts))
     pending = [k for k, g in gates.items() if not g.done()]
     obs = {
         "acts": [list(a) for a in t.acts],
@@ -238,7 +276,7 @@ async def run_conn(loop: VLoop, c, middleware=None, upload_handler=None, handler
         "content": hexb(log["content"]),
         "timer": p.timeout_handle is not None,
         "order": list(log["order"]), "mwargs": list(log["mwargs"]), "hargs": list(log["hargs"]),
-        "pending": pending, "exc": list(log["exc"]), "lost": lost,
+        "pending": pending, "exc": list(log["exc"]), "lost": lost, "lens": lens,
         "awaiting": bool(getattr(p, "awaiting_titan_content", False)),
     }
     # tear down what the case left behind so that nothing fires during a later case on this loop
